@@ -37,7 +37,7 @@ class CPool:
     ncalls = 0
 
     def __init__(self, processes=None, *a, **k):
-        self._processes = processes or os.cpu_count() or 1       # what multiprocessing.Pool records
+        self._processes = processes or CPool.policy.get('processes') or os.cpu_count() or 1       # what multiprocessing.Pool records
         self._pending = []
 
     def __enter__(self):
@@ -88,11 +88,26 @@ class CPool:
                 idx.append(pool_.pop(q % len(pool_)))
         return idx
 
-    def _run(self, f, tasks, kind):
+    def _run(self, f, tasks, kind, chunksize=1):
         if kind != 'apply_async':
             self._flush()
         tasks = list(tasks)
-        order = self._order(len(tasks))
+        n = len(tasks)
+        if chunksize is None:
+            # multiprocessing.Pool.map: tasks travel in chunks of ceil(n / (4 * workers)); one chunk is ONE pickle (objects
+            # shared by its tasks stay shared on the worker's side) and its tasks run one after the other in one worker
+            chunksize, extra = divmod(n, self._processes * 4)
+            chunksize += 1 if extra else 0
+        chunksize = max(1, chunksize)
+        sent = {}
+        if chunksize > 1:
+            groups = [list(range(i, min(i + chunksize, n))) for i in range(0, n, chunksize)]
+            order = [i for g in self._order(len(groups)) for i in groups[g]]
+            for g in groups:
+                for i, t in zip(g, self._copy([tasks[i] for i in g])):
+                    sent[i] = t
+        else:
+            order = self._order(n)
         res = [None] * len(tasks)
         audit = CPool.policy.get('audit')
         files = [None] * len(tasks)
@@ -101,7 +116,7 @@ class CPool:
                 AUDIT['events'] = []
                 AUDIT['on'] = True
             try:
-                res[i] = ('ok', self._copy(f(self._copy(tasks[i]))))
+                res[i] = ('ok', self._copy(f(sent[i] if i in sent else self._copy(tasks[i]))))
             except Exception as e:   # transported to the parent like a real pool
                 res[i] = ('exc', e)
             if audit:
@@ -122,7 +137,7 @@ class CPool:
         return r[1]
 
     def map(self, f, it, chunksize=None):
-        _, res = self._run(f, it, 'map')
+        _, res = self._run(f, it, 'map', chunksize)
         return [self._unwrap(r) for r in res]
 
     def imap(self, f, it, chunksize=1):
@@ -137,7 +152,7 @@ class CPool:
         return self.imap_unordered(f, it)
 
     def starmap(self, f, it, chunksize=None):
-        return self.map(lambda a: f(*a), it)
+        return self.map(lambda a: f(*a), it, chunksize)
 
     # ---- asynchronous submissions: queued, and run (in the policy's order) at the next synchronisation point -
     # a result being waited for or fetched, another pool call, close / join / terminate / leaving a with block
